@@ -58,6 +58,35 @@ CHECKS = {
                      "local close with and without reason; pump goroutines are attributed per scenario from the goroutine dump and "
                      "net.Conn.Close calls are counted.", ref="6.C13",
                 note="trusted: gorilla/websocket, loopback TCP, TLC; pump termination is read from runtime.Stack"),
+    "C10": dict(engine="hub", technique="TLA+ model checking of HubApi (TLC) + replay of TLC behaviours into a real hub.Hub, TLC monitor",
+                text="HubApi.tla models every HubInterface method, info-provider callback and mDNS report over two SKIs with a user-intent "
+                     "ghost; TLC checks that a dial is only attempted with user intent and never after Shutdown for all operation "
+                     "sequences up to the bound. Behaviours (one per edge + simulated) are replayed into a real hub.Hub whose dial attempts "
+                     "are observed at refusing TCP listeners; MonHub judges dials, unregister (connection closed, trust cleared) and "
+                     "cancel (pending handshake aborted) on the real observations. The multi-hub / pending-delayed-dial part of the "
+                     "quantifier is covered sequentially (delayed attempts are run to completion between steps).", ref="6.C10",
+                note="trusted: TLC; connection objects are harness fakes (the SME layer is checked separately); the random dial back-off "
+                     "is scaled to zero through the verif delay hook"),
+    "C15": dict(engine="hub", technique="TLA+ model HubApi defined on SKI identities + every behaviour replayed twice (canonical / re-spelled) on a real hub.Hub, TLC monitor",
+                text="The specification ignores the spelling parameter of every user operation; each TLC behaviour is executed twice "
+                     "on real hubs - canonical SKIs and per-call re-spellings (upper case, spaces, dashes, mixed) - and the TLC monitor "
+                     "requires both runs to be indistinguishable step by step: trust flags, pairing detail, attempt counters, registry, "
+                     "calls received by the connections, hub-reader callbacks, dials.", ref="6.C15",
+                note="trusted: TLC; connection objects are harness fakes"),
+    "C17": dict(engine="mdns", technique="TLA+ model checking of MdnsMgr (all report delivery orders) + resolver event sequences on the real MdnsManager, TLC monitor with the history oracle",
+                text="MdnsOracle.tla states the table as a function of the resolver-event history; MdnsMgr.tla adds the asynchronous "
+                     "reports and TLC checks 'last processed report = table' for every delivery order. TLC-simulated event sequences "
+                     "(valid / invalid TXT classes, address sets incl. IPv6 link-local, removes of unknown services) with a delivery "
+                     "order are fed to a real MdnsManager through its own resolver callback; the monitor folds the oracle over the "
+                     "recorded events and compares the manager's table after every event and the last report at quiescence.", ref="6.C17",
+                note="trusted: TLC; the provider below the manager is a stand-in; a late report goroutine is emulated by a delay in the "
+                     "report callback"),
+    "C18": dict(engine="hub", technique="TLA+ model HubApi (stored details, delayed notes) + replay into a real hub.Hub with the real 500 ms notification goroutines, TLC monitor",
+                text="Every HandleShipHandshakeStateUpdate of a replayed behaviour stores a detail and starts the real delayed "
+                     "notification goroutine; the harness records store order (by detail identity) and delivery order; the TLC monitor "
+                     "requires that no older detail is delivered after a newer one and that the last notification equals "
+                     "PairingDetailForSki at quiescence. Runs between two real hubs are added by the two-hub engine.", ref="6.C18",
+                note="trusted: TLC; handshake state sequences come from the model, not from a real peer"),
     "C14": dict(engine="timer", technique="TLA+ refinement Timer => AbsTimer (TLC) + all arm/stop scripts on real timers, timed-AbsTimer TLC monitor",
                 text="Timer.tla models setHandshakeTimer/stopHandshakeTimer at goroutine granularity and TLC checks that it refines "
                      "AbsTimer (the timer ShipSme assumes); TimerGen enumerates every arm/stop/re-arm/expire script, which is run on real "
@@ -75,11 +104,7 @@ NOT_YET = {
     "C02": "CertGate table module not built yet (DESIGN.md 6.C02); nothing is claimed",
     "C05": "two-hub engine / Hub2 not built yet; nothing is claimed",
     "C07": "EebusJson module not built yet; nothing is claimed",
-    "C10": "HubApi / Hub2 not built yet; nothing is claimed",
-    "C15": "HubApi not built yet; nothing is claimed",
     "C16": "MdnsText not built yet; nothing is claimed",
-    "C17": "MdnsMgr not built yet; nothing is claimed",
-    "C18": "Hub2 not built yet; nothing is claimed",
     "C19": "Avahi not built yet; nothing is claimed",
 }
 
@@ -118,6 +143,11 @@ def main():
             dict(name="ws", path="spec/WsConn.tla spec/WsGen.tla spec/MonWs.tla spec/TraceWs.tla harness/cmd/wsconn tools/check_ws.py",
                  serves_properties=["C12", "C13"],
                  kind_free_text="TLC model checking incl. liveness + scripted runs of the real websocket connection + TLC monitor + trace validation"),
+            dict(name="hub", path="spec/HubApi.tla spec/MonHub.tla harness/cmd/hubapi tools/check_hub.py",
+                 serves_properties=["C10", "C11", "C15", "C18"],
+                 kind_free_text="TLC model checking + replay of TLC behaviours into a real hub.Hub (twice: canonical / re-spelled SKIs) + TLC monitor"),
+            dict(name="mdns", path="spec/MdnsMgr.tla spec/MdnsOracle.tla spec/MonMdns.tla harness/cmd/mdnsmgr tools/check_mdns.py",
+                 serves_properties=["C17"], kind_free_text="TLC model checking + resolver event sequences on the real MdnsManager + TLC monitor"),
             dict(name="timer", path="spec/Timer.tla spec/AbsTimer.tla spec/TimerGen.tla spec/MonTimer.tla harness/cmd/timer tools/check_timer.py",
                  serves_properties=["C14"], kind_free_text="TLC refinement check + script enumeration on real timers + TLC monitor pass"),
         ],
